@@ -231,3 +231,43 @@ def _before_exit(body, h, p, e):
             body._exh_reach = {}
         body._exh_reach[h] = exh
     return e.blk not in inner and e.blk not in exh
+
+
+
+def any_scan(body_of, atom):
+    """`xs.iter().any(|x| c(x))` as an existential scan: -> ExistsLoop-like object whose set_paths are the
+    guard lists under which the closure returns true (the visited element is ('elem', iter term, None))"""
+    from . import mir
+    el = ExistsLoop()
+    if not (isinstance(atom, tuple) and atom and atom[0] == "call" and mir.method_name(atom[1]) == "any" and len(atom[2]) == 2):
+        el.problems.append("not an any() call")
+        return el
+    it, clos = atom[2]
+    if not (isinstance(it, tuple) and it[0] == "iter" and isinstance(clos, tuple) and clos[0] == "closure"):
+        el.problems.append("any() shape")
+        return el
+    el.iter_term = it
+    elem = mir.T("elem", it, None)
+    paths, cb = mir.walk_closure(body_of, clos, param_terms=[elem])
+    for p in paths:
+        if p.outcome[0] != "return":
+            continue
+        gs = [(e.a, e.b) for e in p.events if e.kind == "guard"]
+        r = p.outcome[1]
+        v = mir.const_int(r)
+        if v is None:
+            # return of a boolean term: split
+            leaves = []
+            bool_leaves(r, leaves)
+            if len(leaves) == 1:
+                neg = isinstance(r, tuple) and r[0] == "not"
+                el.set_paths.append(gs + [(leaves[0], not neg)])
+                el.cont_paths.append(gs + [(leaves[0], neg)])
+            else:
+                el.problems.append("closure result not a single atom")
+            continue
+        (el.set_paths if v else el.cont_paths).append(gs)
+    el.exhaustive = True
+    if not el.set_paths:
+        el.problems.append("closure never returns true")
+    return el
